@@ -239,6 +239,20 @@ class Interp:
                     if v is U:
                         return U
                     out += format(v)
+                elif isinstance(x, ast.FormattedValue) and x.conversion in (-1, 115, 114):
+                    # a format spec ({v:08x}, {v:>{w}}) and / or !s / !r on a constant of a plain type
+                    v = self.ev(x.value)
+                    spec = self.ev(x.format_spec) if x.format_spec is not None else ""
+                    if v is U or spec is U or not isinstance(spec, str) or not isinstance(v, (int, float, str, bool)):
+                        return U
+                    if x.conversion == 115:
+                        v = str(v)
+                    elif x.conversion == 114:
+                        v = repr(v)
+                    try:
+                        out += format(v, spec)
+                    except (ValueError, TypeError):
+                        return U
                 else:
                     return U
             return out
